@@ -1,0 +1,126 @@
+//go:build verif
+
+// Contracts checked by /verif (govc). Comments only; not part of any normal build.
+// The `layout` directive synthesises requires/ensures from /verif/specs/layouts (DESIGN.md section 3.4).
+
+package cmpp20
+
+//@ func (p *PduConnect) IEncode
+//@   theory T1
+//@   layout enc
+
+//@ func (p *PduConnect) IDecode
+//@   theory T1
+//@   layout dec
+
+//@ func (pr *PduConnectResp) IEncode
+//@   theory T1
+//@   layout enc
+
+//@ func (pr *PduConnectResp) IDecode
+//@   theory T1
+//@   layout dec
+
+//@ func (p *PduTerminate) IEncode
+//@   theory T1
+//@   layout enc
+
+//@ func (p *PduTerminate) IDecode
+//@   theory T1
+//@   layout dec
+
+//@ func (p *PduTerminateResp) IEncode
+//@   theory T1
+//@   layout enc
+
+//@ func (p *PduTerminateResp) IDecode
+//@   theory T1
+//@   layout dec
+
+//@ func (p *PduSubmit) IEncode
+//@   theory T1
+//@   layout enc
+
+//@ func (p *PduSubmit) IDecode
+//@   theory T1
+//@   layout dec
+
+//@ func (pr *PduSubmitResp) IEncode
+//@   theory T1
+//@   layout enc
+
+//@ func (pr *PduSubmitResp) IDecode
+//@   theory T1
+//@   layout dec
+
+//@ func (p *PduQuery) IEncode
+//@   theory T1
+//@   layout enc
+
+//@ func (p *PduQuery) IDecode
+//@   theory T1
+//@   layout dec
+
+//@ func (p *PduQueryResp) IEncode
+//@   theory T1
+//@   layout enc
+
+//@ func (p *PduQueryResp) IDecode
+//@   theory T1
+//@   layout dec
+
+//@ func (p *PduDeliver) IEncode
+//@   theory T1
+//@   layout enc
+
+//@ func (p *PduDeliver) IDecode
+//@   theory T1
+//@   layout dec
+
+//@ func (pr *PduDeliverResp) IEncode
+//@   theory T1
+//@   layout enc
+
+//@ func (pr *PduDeliverResp) IDecode
+//@   theory T1
+//@   layout dec
+
+//@ func (p *PduActiveTest) IEncode
+//@   theory T1
+//@   layout enc
+
+//@ func (p *PduActiveTest) IDecode
+//@   theory T1
+//@   layout dec
+
+//@ func (pr *PduActiveTestResp) IEncode
+//@   theory T1
+//@   layout enc
+
+//@ func (pr *PduActiveTestResp) IDecode
+//@   theory T1
+//@   layout dec
+
+// ---- hand-written below ----
+
+// Destination list of CMPP 2.0 submit: loop invariants for the table-derived contracts above.
+
+//@ func (p *PduSubmit) IEncode
+//@   loop 1
+//@     invariant packet.winv(b)
+//@     invariant -1 <= rangeindex && rangeindex < len(p.DestTerminalID)
+//@     invariant entry(packet.wfailed(b)) ==> packet.wfailed(b)
+//@     invariant !entry(packet.wfailed(b)) && (forall j int :: 0 <= j && j <= rangeindex ==> len(p.DestTerminalID[j]) <= 21) ==> !packet.wfailed(b) && packet.view(b) == cat(entry(packet.view(b)), rep(elems(p.DestTerminalID), 21, 0, rangeindex + 1))
+//@     decreases len(p.DestTerminalID) - rangeindex
+
+//@ func (p *PduSubmit) IDecode
+//@   loop 1
+//@     invariant packet.rinv(b)
+//@     invariant 0 <= i && i <= int(p.DestUsrTL)
+//@     invariant entry(packet.rfailed(b)) ==> packet.rfailed(b)
+//@     invariant !packet.rfailed(b) ==> len(packet.rem(b)) <= entry(len(packet.rem(b)))
+//@     invariant alloc <= entry(alloc) + 42 * i
+//@     invariant @dec !packet.rfailed(b) && packet.rem(b) == cat(rep(elems(q.DestTerminalID), 21, i, len(q.DestTerminalID)), laysuffix(q, "DestTerminalID"))
+//@     invariant @dec forall j int :: 0 <= j && j < i ==> p.DestTerminalID[j] == q.DestTerminalID[j]
+//@     invariant @safe !packet.rfailed(b) ==> (forall j int :: 0 <= j && j < i ==> nonul(p.DestTerminalID[j]) && len(p.DestTerminalID[j]) <= 21)
+//@     decreases int(p.DestUsrTL) - i
